@@ -173,6 +173,8 @@ class Terms:
                     return ('empty',)
                 if name in ('asarray', 'ascontiguousarray', 'copy', 'array') and len(args) == 1:
                     return args[0]
+                if name in ('swapaxes', 'moveaxis', 'transpose') and args:
+                    return args[0]          # layout only: the value term is unchanged (the layout is C07-D2's)
                 raise Unknown(f'numpy.{name}')
             if isinstance(fn, ast.Attribute) and d is None:
                 # array method on a term
@@ -298,15 +300,11 @@ def canon_app(prog, t):
         kws = dict((k, canon_app(prog, v)) for k, v in t[3])
         if f is not None and last(t[1]) in ('encrypt', 'decrypt'):
             ps = f.params
-            keep = []
             for i, a in enumerate(args):
-                if i >= 2 and i < len(ps):
+                if i < len(ps):
                     kws[ps[i]] = a
-                else:
-                    keep.append(a)
-            args = tuple(keep)
-            if 'key' in kws and len(args) == 1:
-                args = args + (kws.pop('key'),)
+            if len(args) <= len(ps) and all(p_ in kws for p_ in ps[:2]):
+                args = tuple(kws.pop(p_) for p_ in ps[:2])
         return ('app', t[1], args, tuple(sorted(kws.items())))
     if isinstance(t, tuple) and t and t[0] == 'xor':
         return ('xor', frozenset(canon_app(prog, x) for x in t[1]))
@@ -588,34 +586,32 @@ def d2(ctx, prog, regs):
     calls = [c for c in ast.walk(call.node) if isinstance(c, ast.Call) and norm(c.func) == 'self._function']
     ctx.check(len(calls) == 1 and norm(calls[0]) == 'self._function(**self._base_kwargs)', 'C07-D2', f'{call.key}::invoke', 'the wrapped function is not called once with the collected arguments',
               'values = self._function(**self._base_kwargs)', call.where())
-    binds = [s for s in ast.walk(call.node) if isinstance(s, ast.Assign) and norm(s.targets[0]).startswith('self._base_kwargs[') and isinstance(s.value, ast.Subscript) and norm(s.value.value) == kwp]
+    local1 = {}
+    for s_ in ast.walk(call.node):
+        if isinstance(s_, ast.Assign) and len(s_.targets) == 1 and isinstance(s_.targets[0], ast.Name):
+            local1.setdefault(s_.targets[0].id, []).append(s_.value)
+
+    def through(v):
+        return local1[v.id][0] if isinstance(v, ast.Name) and len(local1.get(v.id, ())) == 1 else v
+    binds = [s for s in ast.walk(call.node) if isinstance(s, ast.Assign) and norm(s.targets[0]).startswith('self._base_kwargs[') and isinstance(through(s.value), ast.Subscript)
+             and norm(through(s.value).value) == kwp]
+    binds = [ast.Assign(targets=b_.targets, value=through(b_.value)) for b_ in binds]
     ctx.check(len(binds) == 1 and norm(binds[0].targets[0].slice) == norm(binds[0].value.slice), 'C07-D2', f'{call.key}::binding',
               'an argument of the wrapped function does not receive the metadata of the same name', 'argument `name` <- metadata[`name`]', call.where())
-    # what is returned, as one expression over the function output (locals expanded along the words-selection path)
-    env = {}
-
-    class Exp(ast.NodeTransformer):
-        def visit_Name(self, n):
-            if isinstance(n.ctx, ast.Load) and n.id in env:
-                return env[n.id]
-            return n
-
-    def walk(stmts):
-        import copy
-        for st in stmts:
-            if isinstance(st, ast.Assign) and len(st.targets) == 1 and isinstance(st.targets[0], ast.Name):
-                env[st.targets[0].id] = Exp().visit(copy.deepcopy(st.value))
-            elif isinstance(st, ast.If):
-                if not (st.body and isinstance(st.body[-1], ast.Raise)):
-                    walk(st.body)
-            elif isinstance(st, ast.Try):
-                walk(st.body)
-            elif isinstance(st, ast.Return) and st.value is not None:
-                return Exp().visit(copy.deepcopy(st.value))
-        return None
-    ret = walk([s_ for s_ in call.node.body if not isinstance(s_, ast.For)])
+    # what is returned, as one expression over the function output per path (locals expanded along the path)
+    import copy as _copy
+    stripped = _copy.deepcopy(call.node)
+    stripped.body = [s_ for s_ in stripped.body if not isinstance(s_, ast.For)]
+    paths = astutil.return_paths(stripped)
+    NOWORDS = {('self.words is None', True), ('self.words is not None', False)}
+    sel_paths = [(g_, e_) for g_, e_ in (paths or []) if e_ is not None and not any((norm(t_), pol_) in NOWORDS for t_, pol_ in g_)]
+    plain_paths = [(g_, e_) for g_, e_ in (paths or []) if e_ is not None and any((norm(t_), pol_) in NOWORDS for t_, pol_ in g_)]
+    ret = sel_paths[0][1] if len(sel_paths) == 1 else None
     CALL = 'self._function(**self._base_kwargs)'
     key_w = f'{call.key}::words axis'
+    for g_, e_ in plain_paths:
+        ctx.check(norm(e_) == CALL, 'C07-D2', f'{call.key}::result (no words selection)', f'without a words selection `{norm(e_)[:80]}` is returned, not the function output itself',
+                  'without a words selection the function output is returned as it is', call.where())
     if ret is None:
         ctx.undecided('C07-D2', f'{call.key}::result', 'returned expression not derivable', call.where())
     else:
